@@ -507,7 +507,17 @@ def r_concat_fresh(ctx: RuleCtx, col: Collector):
                     f"state, and writing the new design back overwrites the 'old' design it is compared with")
     if not bad:
         col.ok(where_of(f), f.rel, line_of(f.node), f"{f.short}: returns fresh memory", "no return value views an input")
-    # every iteration records its end offset
+    # every iteration records its end offset ... or the offsets are formed in one go as the running sum of all entry sizes
+    for n in ast.walk(f.node):
+        if isinstance(n, ast.Call) and norm(n.func).split(".")[-1] == "cumsum" and n.args:
+            a0 = n.args[0]
+            comp_ok = isinstance(a0, (ast.ListComp, ast.GeneratorExp)) and len(a0.generators) == 1 and not a0.generators[0].ifs and \
+                any(k in norm(a0.elt) for k in (".size", "len(", "np.size("))
+            if comp_ok:
+                col.ok(where_of(f), f.rel, line_of(n), f"{f.short}: every entry records its end offset '{norm(n)[:60]}'",
+                       "offsets are the running sum over the sizes of all entries (no entry can be skipped)")
+                return
+            # a running sum over sizes collected per entry in the loop: judged below (the per-entry store of the size)
     cfg = ctx.flow.cfg(f)
     loops = [nd for nd in cfg.simple_nodes() if nd.kind == FOR]
     if not loops:
@@ -1247,15 +1257,27 @@ def r_norm_factor(ctx: RuleCtx, col: Collector):
     selfn = m.self_name(resp)
     loops = [n for n in ast.walk(resp.node) if isinstance(n, ast.For) and any(
         isinstance(x, ast.AugAssign) and isinstance(x.op, (ast.Mult, ast.Div)) for x in ast.walk(n))]
-    if not loops or not isinstance(loops[0].target, ast.Name):
+    if not loops:
         raise AnalysisError("EigenSolve._response: normalisation loop not found")
     lp = loops[0]
-    idx = lp.target.id
+    # what identifies the current eigenvector: the loop counter, or the vector itself (for i, q in enumerate(Q.T))
+    idxs = [x.id for x in ast.walk(lp.target) if isinstance(x, ast.Name)]
+    if not idxs:
+        raise AnalysisError("EigenSolve._response: normalisation loop not found")
+    idx = idxs[0]
     scaled = [x for x in ast.walk(lp) if isinstance(x, ast.AugAssign) and isinstance(x.op, (ast.Mult, ast.Div))]
     sc = scaled[-1]
     expr = expand_names(resp.node, sc.value)
+    # a factor assigned in several branches (sf = 1/n in one, -1/n in the other): every definition is judged
+    alts = [expr]
+    if isinstance(expr, ast.Name):
+        defs_ = [d.value for d in ast.walk(lp) if isinstance(d, ast.Assign) and len(d.targets) == 1 and isinstance(d.targets[0], ast.Name)
+                 and d.targets[0].id == expr.id]
+        if len(defs_) > 1:
+            alts = [expand_names(resp.node, d) for d in defs_]
     # split into numerator (orientation) and denominator (norm)
     num, den = [], []
+    den_per_alt: List[List[ast.AST]] = []
 
     def split(e, inv=False):
         if isinstance(e, ast.BinOp) and isinstance(e.op, ast.Mult):
@@ -1266,16 +1288,21 @@ def r_norm_factor(ctx: RuleCtx, col: Collector):
             split(e.right, not inv)
         else:
             (den if inv != isinstance(sc.op, ast.Div) else num).append(e)
-    split(expr)
+    for alt in alts:
+        k0 = len(den)
+        split(alt)
+        den_per_alt.append(den[k0:])
     cfg = ctx.flow.cfg(resp)
     nd = cfg.node_of(sc)
-    must = _dep_states(cfg, idx, selfn, must=True).get(nd) or set()
+    must = set()
+    for ix in idxs:
+        must |= _dep_states(cfg, ix, selfn, must=True).get(nd) or set()
     # names with several definitions are not expanded: judge them by must-dependence on the loop index
     construct = "EigenSolve: norm in the scale factor computed from the vector itself"
-    if not den:
+    if not den or any(not d_ for d_ in den_per_alt):
         col.bad(where_of(resp), resp.rel, line_of(sc), construct, f"'{norm(expr)}' contains no division by a norm")
     else:
-        bad = [d for d in den if not any((isinstance(x, ast.Name) and (x.id == idx or x.id in must)) for x in ast.walk(d))]
+        bad = [d for d in den if not any((isinstance(x, ast.Name) and (x.id in idxs or x.id in must)) for x in ast.walk(d))]
         if bad:
             col.bad(where_of(resp), resp.rel, line_of(sc), construct,
                     f"the divisor '{norm(bad[0])}' does not depend on the current eigenvector on every path (some branch uses a "
